@@ -533,8 +533,8 @@ def nt_c19(lhs, impl):
 PROPS["C19"] = {
     "modules": ["WhatIs.Props.C19"],
     "theorems": ["WhatIs.C19.keyid_readback", "WhatIs.C19.identity_readback", "WhatIs.C19.string_tag_stored",
-                 "WhatIs.C19.ill_typed_is_absent", "WhatIs.C19.unsigned_iff", "WhatIs.C19.sig_readback"],
-    "facts": {"rpm.uncheckedAccessorCalls": [], "rpm.keyIdFormats": ["%016X", "%016X"]},
+                 "WhatIs.C19.ill_typed_is_absent", "WhatIs.C19.unsigned_iff", "WhatIs.C19.sig_readback", "WhatIs.C19.sig_header_always_read"],
+    "facts": {"rpm.sigHeaderNeedsRegionTag": False, "rpm.uncheckedAccessorCalls": [], "rpm.keyIdFormats": ["%016X", "%016X"]},
     "nontrivial": nt_c19,
     "rule": "packages written by the harness (lead v3/v4, signature header, main header): name/version/release/arch strings, each of "
             "MD5/SHA-1/SHA-256 digests present or absent, each of the RSA/DSA/GPG/PGP signature tags present or absent with v4 "
